@@ -1,18 +1,28 @@
 #[macro_use]
 mod gen;
+#[macro_use]
+mod world;
 mod alloc;
 mod driver;
 mod elem;
 mod exec;
-mod exec_heap;
-mod exec_serde;
+mod g_bx;
+mod g_collect;
+mod g_conv;
+mod g_iter1;
+mod g_iter2;
+mod g_map;
+mod g_misc;
+mod g_new;
+mod g_seq;
+mod g_serde;
+mod g_zip;
 mod lanes;
 mod ledger;
 mod ops;
 mod props;
 mod rng;
 mod run;
-mod world;
 
 use std::path::Path;
 use std::sync::atomic::Ordering::Relaxed;
